@@ -142,6 +142,8 @@ impl<'a> Evaluator<'a> for RpslEvaluator {
 fn filter_attribute(object: &str) -> Option<String> {
     let mut attrs: Vec<(String, String)> = Vec::new();
     for line in object.lines() {
+        // a `#` starts a comment that runs to the end of the line
+        let line = line.split('#').next().unwrap_or_default();
         if let Some(continued) = line.strip_prefix([' ', '\t', '+']) {
             if let Some((_, value)) = attrs.last_mut() {
                 value.push(' ');
